@@ -534,6 +534,8 @@ def bpseq_item(out, item, rep, tmpdir=None):
             ("without_pseudoknots", lambda: (str(bp.without_pseudoknots()), has_pairs)),
             ("without_isolated", lambda: (str(bp.without_isolated()), has_pairs)),
         ]
+        if item.get("only"):
+            queries = [q for q in queries if q[0] in item["only"]]
         if item.get("graphviz") and solver_name == item["solvers"][0]:
             queries.append(("graphviz_source", lambda: (graphviz_source(bp, tmpdir), has_pairs)))
         # the queries are asked in an order of this interpreter's and this repetition's own: an answer that depends
@@ -798,6 +800,8 @@ def main():
             for item in items:
                 if stopped:
                     break
+                if rep >= item.get("reps", 2):
+                    continue  # a dear item computed once per interpreter
                 t1 = time.monotonic()
                 try:
                     if item["type"] == "file":
